@@ -1949,6 +1949,121 @@ impl<'a, C: Crypto> TransportRunner<'a, C> {
         })
     }
 
+    /// Verification hook: one iteration of `process_rx` on the given datagram.
+    /// `None` if the RX buffer is occupied, else whether the packet was left in it.
+    #[cfg(rs_matter_verif)]
+    pub async fn verif_rx_step<S>(
+        &self,
+        data: &[u8],
+        peer: Address,
+        send: &IfMutex<S>,
+    ) -> Option<bool>
+    where
+        S: NetworkSend,
+    {
+        let guard = self
+            .matter
+            .transport
+            .rx
+            .try_lock_if(|packet| packet.buf.is_empty())
+            .ok()?;
+        let mut rx = PacketAccess(guard, false);
+        rx.clear_on_drop(true);
+
+        unwrap!(rx.buf.resize_default(MAX_RX_BUF_SIZE));
+        let len = data.len().min(rx.buf.len());
+        rx.buf[..len].copy_from_slice(&data[..len]);
+        rx.peer = peer;
+        rx.buf.truncate(len);
+        rx.payload_start = 0;
+
+        match self.handle_rx_packet(&mut rx, send).await {
+            Ok(true) => {
+                rx.clear_on_drop(false);
+                Some(true)
+            }
+            _ => Some(false),
+        }
+    }
+
+    /// Verification hook: the accept-timeout sweeper's predicate-and-action, once.
+    /// `None` if the RX buffer is locked.
+    #[cfg(rs_matter_verif)]
+    pub fn verif_sweep_accept_timeout(&self) -> Option<bool> {
+        let mut guard = self.matter.transport.rx.try_lock().ok()?;
+        Some(self.handle_accept_timeout_rx_packet(&mut guard))
+    }
+
+    /// Verification hook: the orphaned-packet sweeper's predicate-and-action, once.
+    /// `None` if the RX buffer is locked.
+    #[cfg(rs_matter_verif)]
+    pub fn verif_sweep_orphaned(&self) -> Option<bool> {
+        let mut guard = self.matter.transport.rx.try_lock().ok()?;
+        Some(self.handle_orphaned_rx_packet(&mut guard))
+    }
+
+    /// Verification hook: one iteration of `process_dropped_exchanges`.
+    /// `None` if the TX buffer is occupied; else (an exchange was closed,
+    /// (protocol id, opcode, `process_tx` would put it on the wire) of the queued packet).
+    /// The TX buffer is cleared again.
+    #[cfg(rs_matter_verif)]
+    pub fn verif_close_dropped(&self) -> Option<(bool, Option<(u16, u8, bool)>)> {
+        let guard = self
+            .matter
+            .transport
+            .tx
+            .try_lock_if(|packet| packet.buf.is_empty())
+            .ok()?;
+        let mut tx = PacketAccess(guard, false);
+        tx.clear_on_drop(true);
+
+        let found = matches!(self.handle_dropped_exchange(&mut tx), Ok(false));
+
+        let queued = if tx.buf.is_empty() {
+            None
+        } else {
+            let sendable = match tx.tx_info.payload_state {
+                TxPayloadState::NotEncoded { session_id } => self
+                    .matter
+                    .with_state(|state| state.sessions.get_for_tx(session_id).is_some()),
+                TxPayloadState::Encoded => true,
+            };
+
+            Some((
+                tx.header.proto.proto_id,
+                tx.header.proto.proto_opcode,
+                sendable,
+            ))
+        };
+
+        Some((found, queued))
+    }
+
+    /// Verification hook: drop whatever sits in the TX buffer (stands for `process_tx`).
+    /// Returns (protocol id, opcode) of what was there.
+    #[cfg(rs_matter_verif)]
+    pub fn verif_tx_flush(&self) -> Option<(u16, u8)> {
+        let guard = self
+            .matter
+            .transport
+            .tx
+            .try_lock_if(|packet| !packet.buf.is_empty())
+            .ok()?;
+        let mut tx = PacketAccess(guard, false);
+        tx.clear_on_drop(true);
+
+        Some((tx.header.proto.proto_id, tx.header.proto.proto_opcode))
+    }
+
+    /// Verification hook: (RX buffer locked, RX buffer non-empty, header of the packet in it).
+    #[cfg(rs_matter_verif)]
+    pub fn verif_rx_state(&self) -> (bool, bool, PacketHdr) {
+        match self.matter.transport.rx.try_lock() {
+            Ok(guard) => (false, !guard.buf.is_empty(), guard.header.clone()),
+            Err(_) => (true, true, PacketHdr::new()),
+        }
+    }
+
     pub(crate) async fn evict_some_session(&self) -> Result<(), Error> {
         let mut tx = self
             .matter
